@@ -23,6 +23,7 @@ func (rr *SIG) Sign(k crypto.Signer, m *Msg) ([]byte, error) {
 
 	rr.Hdr = RR_Header{Name: ".", Rrtype: TypeSIG, Class: ClassANY, Ttl: 0}
 	rr.OrigTtl, rr.TypeCovered, rr.Labels = 0, 0, 0
+	rr.Signature = "" // a signature left from an earlier Sign must not end up in the RDATA
 
 	// PackBuffer only uses our buffer if it is larger than the uncompressed length of the message.
 	buf := make([]byte, msgLenWithCompressionMap(m, nil)+1+Len(rr))
